@@ -117,9 +117,11 @@ def run(ctx):
     code = ("import json,sys\nsys.path.insert(0, %r)\nimport os\nos.environ['VF_MODE']='replay'\n"
             "from harness import c17\nimport pydsol.core.units as U\nfrom vf import rt\nout=[]\n"
             "for q in U.QUANTITIES:\n    us=list(q._units.keys())\n    for n,u in enumerate(us):\n"
-            "        for v in (2.75, -0.1, 1e-9, 123456789.125):\n"
-            "            rt.reset()\n            if not c17.r_unit(q.__name__, u, v, us[(n+1)%%len(us)]):\n"
-            "                out.append([q.__name__, u, v, us[(n+1)%%len(us)]]); break\n"
+            "        for v in (2.75, -0.1, 1e-9, 123456789.125, 57.0, 27.0, 0.3):\n"
+            "            alias=[a for a in us if a!=u and q._units[a]==q._units[u]]\n"
+            "            tgt=alias[0] if alias else us[(n+1)%%len(us)]\n"
+            "            rt.reset()\n            if not c17.r_unit(q.__name__, u, v, tgt):\n"
+            "                out.append([q.__name__, u, v, tgt]); break\n"
             "print('RESULT '+json.dumps(out))\n") % os.path.dirname(os.path.dirname(os.path.abspath(__file__)))
     pr = subprocess.run([sys.executable, "-c", code], capture_output=True, text=True, timeout=600,
                         env=dict(os.environ, VF_MODE="replay"))
